@@ -120,6 +120,18 @@ func issue(m *mon.M, r *rand.Rand, d *cr.Cert, subj *poolKey, ca *caVariant, via
 	return is, true
 }
 
+// parsePub calls ssh.ParsePublicKey and verifies that the input blob was not modified.
+func parsePub(m *mon.M, b []byte) (ssh.PublicKey, error) {
+	snap := append([]byte(nil), b...)
+	k, err := parsePub(m, b)
+	if !bytes.Equal(snap, b) {
+		m.Violation("input-modified:ParsePublicKey", map[string]any{"before": mon.FullHex(snap), "after": mon.FullHex(b)})
+		copy(b, snap)
+	}
+	m.Count("inputs_checked_unmodified", 1)
+	return k, err
+}
+
 func firstDiffField(p *cr.Parsed, a, b []byte) string {
 	for i := 0; i < len(a) && i < len(b); i++ {
 		if a[i] != b[i] {
@@ -132,7 +144,7 @@ func firstDiffField(p *cr.Parsed, a, b []byte) string {
 // parseAndRoundTrip feeds bytes to ParsePublicKey and judges the byte-for-byte
 // round trip (canonical inputs only).
 func parseAndRoundTrip(m *mon.M, src string, d *cr.Cert, plainAlgo string, b []byte) (*ssh.Certificate, bool) {
-	k, err := ssh.ParsePublicKey(b)
+	k, err := parsePub(m, b)
 	if err != nil {
 		m.Violation("parse-rejects-valid-cert:"+src+":"+errClass(err), map[string]any{"bytes": mon.FullHex(b), "err": err.Error()})
 		return nil, false
@@ -164,8 +176,14 @@ func parseAndRoundTrip(m *mon.M, src string, d *cr.Cert, plainAlgo string, b []b
 func judge(m *mon.M, is *issued, d *cr.Cert, certBytes []byte, key ssh.PublicKey, cfg *checkerCfg, sigValid bool, note string) (cr.Verdict, []string) {
 	want, reasons := cr.Decide(d, cfg.model(d, sigValid))
 	var res goResult
+	keySnap := key.Marshal()
+	bytesSnap := append([]byte(nil), certBytes...)
 	pv, stack := mon.Panics(func() { res = cfg.run(key) })
 	m.Eval()
+	if pv == nil && (!bytes.Equal(keySnap, key.Marshal()) || !bytes.Equal(bytesSnap, certBytes)) {
+		m.Violation("input-modified:"+modeNames[cfg.Mode], map[string]any{"before": mon.FullHex(keySnap), "after": mon.FullHex(key.Marshal())})
+	}
+	m.Count("inputs_checked_unmodified", 1)
 	wit := func() map[string]any {
 		return map[string]any{"cert": mon.FullHex(certBytes), "ca": is.CA.Name, "subject": is.Subject.Name, "via": is.Via, "mode": modeNames[cfg.Mode],
 			"principal": cfg.Principal, "addr": cfg.addr(), "supported": cfg.Supported, "now": cfg.Sec, "nsec": cfg.Nsec,
@@ -331,6 +349,13 @@ func TestC41(t *testing.T) {
 	m.Gate("unsigned_bytes_judged", q(300, 5000), "re-encodings that parse, presented with the signature made over the canonical bytes")
 	m.Gate("signed_noncanonical_judged", q(200, 3000), "same-struct re-encodings carrying a valid signature over the received bytes")
 	m.Gate("bitflip_judged", q(100, 2000), "single bit flips in the signed region")
+	for _, k := range knobs {
+		if _, _, ok := tupleKnob(k); ok {
+			m.Gate("reenc:"+k, q(30, 400), "tuple-name re-encoding class presented unsigned and freshly signed")
+		}
+	}
+	m.Gate("base_with_empty_option_name:ext", q(60, 800), "certificates with an extension literally named \"\" (first/only tuple) accepted and round-tripped")
+	m.Gate("base_with_empty_option_name:crit", q(60, 800), "certificates with a critical option literally named \"\"")
 	if w != nil {
 		m.Gate("sshkeygen_issued", q(40, 1000), "ssh-keygen -s certificates parsed and decided")
 		m.Gate("sshkeygen_printed", q(40, 1000), "SignCert certificates printed by ssh-keygen -L")
@@ -422,7 +447,7 @@ func runDecide(m *mon.M, pool map[string]*poolKey, cas []*caVariant) {
 			}
 			sigValid = false
 			cbytes = cd.Bytes()
-			k, err := ssh.ParsePublicKey(cbytes)
+			k, err := parsePub(m, cbytes)
 			if err != nil {
 				m.Count("tampered_unparseable", 1)
 				return
@@ -684,6 +709,44 @@ var knobs = []string{
 	"trailing-bytes-after-signature",
 	"sigkey-trailing-bytes",
 	"bitflip",
+	"bitflip",
+	// tuple-name classes, in the extensions and in the critical options
+	"tuple:ext:dup-empty-name-before", "tuple:crit:dup-empty-name-before",
+	"tuple:ext:dup-empty-name-after", "tuple:crit:dup-empty-name-after",
+	"tuple:ext:empty-name-moved-after-normal", "tuple:crit:empty-name-moved-after-normal",
+	"tuple:ext:dup-name-before", "tuple:crit:dup-name-before",
+	"tuple:ext:dup-name-after", "tuple:crit:dup-name-after",
+	"tuple:ext:swap-adjacent", "tuple:crit:swap-adjacent",
+	"tuple:ext:case-variant-inserted", "tuple:crit:case-variant-inserted",
+	"tuple:ext:prefix-name-inserted", "tuple:crit:prefix-name-inserted",
+}
+
+// tupleKnob splits "tuple:<section>:<class>".
+func tupleKnob(knob string) (section, class string, ok bool) {
+	f := strings.SplitN(knob, ":", 3)
+	if len(f) != 3 || f[0] != "tuple" {
+		return "", "", false
+	}
+	return f[1], f[2], true
+}
+
+func sortOpts(o []cr.Opt) {
+	sort.SliceStable(o, func(a, b int) bool { return o[a].Name < o[b].Name })
+}
+
+func insertAt(o []cr.Opt, i int, x cr.Opt) []cr.Opt {
+	out := append([]cr.Opt{}, o[:i]...)
+	out = append(out, x)
+	return append(out, o[i:]...)
+}
+
+func indexOpt(o []cr.Opt, name string) int {
+	for i := range o {
+		if o[i].Name == name {
+			return i
+		}
+	}
+	return -1
 }
 
 // padMpintField re-encodes field idx of a key blob with pad leading zero bytes.
@@ -710,13 +773,15 @@ func runReenc(m *mon.M, pool map[string]*poolKey, cas []*caVariant, w *work) {
 			rsaDsaCAs = append(rsaDsaCAs, c)
 		}
 	}
-	m.Cases("reenc", m.N(2400, 40000), func(i int64, r *rand.Rand) {
+	m.Cases("reenc", m.N(3300, 40000), func(i int64, r *rand.Rand) {
 		knob := knobs[spread(i, len(knobs))]
 		subj := subjectOf(r, pool)
 		ca := mon.Pick(r, cas)
 		mode := cr.Mode(r.IntN(3))
 		d := genDesc(r, true)
-		if strings.Contains(knob, "critopt") && mode == cr.ModeCheckHostKey {
+		tsec, tclass, isTuple := tupleKnob(knob)
+		critKnob := strings.Contains(knob, "critopt") || tsec == "crit"
+		if critKnob && mode == cr.ModeCheckHostKey {
 			mode = cr.ModeAuthenticate
 		}
 		switch mode {
@@ -728,7 +793,7 @@ func runReenc(m *mon.M, pool map[string]*poolKey, cas []*caVariant, w *work) {
 				d.Principals[j] = mon.Pick(r, hostSafePrincipals)
 			}
 		}
-		if strings.Contains(knob, "critopt") {
+		if critKnob {
 			d.Type = cr.UserCert
 		}
 		// options ssh-keygen -L can print (it is consulted as witness); no open readings
@@ -775,7 +840,38 @@ func runReenc(m *mon.M, pool map[string]*poolKey, cas []*caVariant, w *work) {
 		case "options-out-of-order", "options-duplicate-name":
 			d.Ext = []cr.Opt{{Name: "a"}, {Name: "b", Value: "v"}, {Name: "permit-pty"}}
 		}
-		is, ok := issue(m, r, d, subj, ca, r.IntN(2) == 0)
+		viaGo := r.IntN(2) == 0
+		if isTuple {
+			list := &d.Ext
+			if tsec == "crit" {
+				list = &d.Crit
+			}
+			switch tclass {
+			case "dup-empty-name-before", "dup-empty-name-after":
+				// an option literally named "": only the reference encoder issues these
+				*list = setOpt(*list, cr.Opt{Name: "", Value: mon.Pick(r, []string{"", "v", "signed value"})})
+				viaGo = false
+			case "empty-name-moved-after-normal":
+				*list = setOpt(*list, cr.Opt{Name: "", Value: mon.Pick(r, []string{"", "v"})})
+				*list = setOpt(*list, cr.Opt{Name: "a@example.com", Value: mon.Pick(r, []string{"", "w"})})
+				viaGo = false
+			case "dup-name-before", "dup-name-after":
+				*list = setOpt(*list, cr.Opt{Name: "dup@example.com", Value: "v"})
+			case "swap-adjacent":
+				*list = setOpt(*list, cr.Opt{Name: "a@example.com"})
+				*list = setOpt(*list, cr.Opt{Name: "b@example.com", Value: "v"})
+			case "case-variant-inserted", "prefix-name-inserted":
+				if tsec == "crit" {
+					*list = setOpt(*list, cr.Opt{Name: "force-command", Value: "x"})
+				} else {
+					*list = setOpt(*list, cr.Opt{Name: "permit-pty"})
+				}
+			}
+			if indexOpt(*list, "") >= 0 {
+				m.Count("base_with_empty_option_name:"+tsec, 1)
+			}
+		}
+		is, ok := issue(m, r, d, subj, ca, viaGo)
 		if !ok {
 			return
 		}
@@ -844,6 +940,41 @@ func runReenc(m *mon.M, pool map[string]*poolKey, cas []*caVariant, w *work) {
 			case "sigkey-trailing-bytes":
 				d1.SigKey = append(d1.SigKey, 0)
 			}
+			if isTuple {
+				list := &d1.Ext
+				if tsec == "crit" {
+					list = &d1.Crit
+				}
+				l := *list
+				switch tclass {
+				case "dup-empty-name-before":
+					// an extra, never signed "" tuple in front of the signed one (other value: the later tuple wins in a map)
+					l = insertAt(l, 0, cr.Opt{Name: "", Value: l[0].Value + "-unsigned"})
+				case "dup-empty-name-after":
+					l = insertAt(l, 1, l[0])
+				case "empty-name-moved-after-normal":
+					l[0], l[1] = l[1], l[0]
+				case "dup-name-before":
+					j := indexOpt(l, "dup@example.com")
+					l = insertAt(l, j, cr.Opt{Name: "dup@example.com", Value: "unsigned"})
+				case "dup-name-after":
+					j := indexOpt(l, "dup@example.com")
+					l = insertAt(l, j+1, l[j])
+				case "swap-adjacent":
+					j := r.IntN(len(l) - 1)
+					l[j], l[j+1] = l[j+1], l[j]
+				case "case-variant-inserted":
+					n := map[string]string{"crit": "Force-command", "ext": "Permit-pty"}[tsec]
+					l = append(l, cr.Opt{Name: n, Value: l[indexOpt(l, strings.ToLower(n))].Value})
+					sortOpts(l)
+				case "prefix-name-inserted":
+					n := map[string]string{"crit": "force", "ext": "permit"}[tsec]
+					full := map[string]string{"crit": "force-command", "ext": "permit-pty"}[tsec]
+					l = append(l, cr.Opt{Name: n, Value: l[indexOpt(l, full)].Value})
+					sortOpts(l)
+				}
+				*list = l
+			}
 			B1 = d1.Bytes() // old signature
 			S1 := d1.SignedBytes()
 			sig1, err := ca.signBody(mon.Reader{R: r}, S1)
@@ -862,12 +993,12 @@ func runReenc(m *mon.M, pool map[string]*poolKey, cas []*caVariant, w *work) {
 		if knob == "trailing-bytes-after-signature" {
 			sameSigned = true
 		}
-		k1, err1 := ssh.ParsePublicKey(B1)
+		k1, err1 := parsePub(m, B1)
 		m.Eval()
 		if err1 != nil {
 			m.Count("parser_rejects:"+knob, 1)
 			if B2 != nil {
-				if _, err2 := ssh.ParsePublicKey(B2); err2 == nil && !sameSigned {
+				if _, err2 := parsePub(m, B2); err2 == nil && !sameSigned {
 					m.Count("parser_accepts_only_signed_variant:"+knob, 1)
 				}
 			}
@@ -925,7 +1056,7 @@ func runReenc(m *mon.M, pool map[string]*poolKey, cas []*caVariant, w *work) {
 			return
 		}
 		// (b) the same re-encoding, validly signed over the received bytes
-		k2, err2 := ssh.ParsePublicKey(B2)
+		k2, err2 := parsePub(m, B2)
 		if err2 != nil {
 			m.Count("signed_variant_unparseable:"+knob, 1)
 			return
